@@ -39,7 +39,10 @@ func init() {
 		ConfigSensitive: true,
 		Rules: []func(*Checker){ruleC02Kinds, ruleMaterialise("C02.materialise"), ruleRestore("C02.restore"), ruleC02Fields, ruleMeta("C02.meta"), ruleC02Omit, ruleC04Accept2("C02.links"), aliasRule(ruleC05Link, "C05.link", "C02.linkkept", 2), ruleC02LinkTarget, ruleLinkPrecise("C02.linkprecise"), ruleFilesClosed("C02.closed"), ruleLinkRestore("C02.linkrestore"), ruleEntryNameAsSpelled("C02.namekept"), rulePackerWriters("C02.percall"), ruleBodyReadToEnd("C02.fullread"), ruleRefusalsOfPack("C02.packrefusals"),
 			aliasRuleFiltered(ruleC03Prune, "C03.prune", "C02.skipdir", 1, func(o Oblig) bool { return strings.Contains(o.Key, "SkipDir only for directories") }),
-			aliasRuleFiltered(ruleC12Whole, "C12.whole", "C02.noskip", 1, func(o Oblig) bool { return strings.Contains(o.Key, "back edge") })},
+			aliasRuleFiltered(ruleC12Whole, "C12.whole", "C02.noskip", 1, func(o Oblig) bool { return strings.Contains(o.Key, "back edge") }),
+			// the walk inspects the components of the entry's path below the destination and nothing else: a walk
+			// that also looks at the destination itself refuses every entry when that is a link to a directory
+			aliasRuleFiltered(ruleC01Walk, "C01.walk", "C02.walked", 1, func(o Oblig) bool { return strings.Contains(o.Key, "walked path") })},
 		NotDecided: []string{
 			"round-trip equality itself: tar rounding of mtimes, PAX name handling, Perm() arithmetic, content bytes",
 			"link-target equivalence under filepath.ToSlash",
